@@ -1,4 +1,5 @@
 """C09 ZBDD set-family operations: wiring"""
+import eshort
 import ecache
 import ereduce
 import eunits
@@ -25,4 +26,9 @@ def run(ctx):
     n = ecache.run(ctx, F, crates=("oxidd_rules_zbdd::",))
     ctx.floor("E-CACHE", "cache-using algorithm functions", n, 5)
     ecache.check_hit_equals_miss(ctx, F, crates=("oxidd_rules_zbdd::",))
+    ctx.explain("E-TABLE.shortcut: the shortcut prefix (equal/constant operands, delegations) of apply_ite and of the "
+                "ZBDD set operations is interpreted for all operand tuples over {constants, x, y, z} up to the cache "
+                "lookup; every shortcut taken must denote the operation.")
+    n = eshort.run(ctx, F, kinds=("zbdd",))
+    ctx.floor("E-TABLE.shortcut", "shortcut situations interpreted", n, 20)
     ctx.not_decided = "the level-comparison recursion, consistency after add_vars"
